@@ -147,6 +147,8 @@ class Checker:
             out.append("ANALYSIS-INCONCLUSIVE property=%s rule=%s site=%s : %s %s" % (prop, o.rule, o.site, o.what, o.detail or ""))
         for n in self.notes:
             out.append("NOTE: " + n)
+        meas = self._measured()
+        self.analysed["paths"] = max(self.analysed["paths"], meas["paths"])
         n_ob = len(self.obs)
         n_dis = len([o for o in self.obs if o.status == "discharged"])
         distinct = len({(o.rule, o.site, o.what) for o in self.obs if o.nontrivial and o.status == "discharged"})
@@ -162,7 +164,26 @@ class Checker:
         self.write_evidence(n_ob, n_dis, distinct, len(new), kf, inc, code)
         return code, out
 
+    def _measured(self):
+        """counts measured from what the engine actually enumerated during this run (the per-function path cache and the term cache)"""
+        from . import common
+        paths = calls = stores = 0
+        funcs = set()
+        sites = set()
+        for key, pfs in common._PATH_CACHE.items():
+            funcs.add(key[1])
+            paths += len(pfs)
+            for pf in pfs:
+                stores += len(pf.stores)
+                for ce in pf.calls:
+                    sites.add(id(ce.raw))
+        return {"functions_with_paths": len(funcs), "paths": paths, "call_sites": len(sites), "stores_on_paths": stores, "terms": len(common._TERM_CACHE)}
+
     def write_evidence(self, n_ob, n_dis, distinct, n_new, kf, inc, code):
+        meas = self._measured()
+        self.analysed["paths"] = max(self.analysed["paths"], meas["paths"])
+        self.analysed["call_sites"] = max(self.analysed["call_sites"], meas["call_sites"])
+        self.analysed["terms"] = max(self.analysed["terms"], meas["terms"])
         samples = []
         by_rule = {}
         for o in self.obs:
@@ -189,6 +210,9 @@ class Checker:
                 "paths_enumerated": self.analysed["paths"],
                 "call_sites_examined": self.analysed["call_sites"],
                 "terms_compared": self.analysed["terms"],
+                "stores_on_paths": meas["stores_on_paths"],
+                "functions_with_enumerated_paths": meas["functions_with_paths"],
+                "normaliser": {m: {k: (len(v) if isinstance(v, list) else v) for k, v in info.items()} for m, info in (self.prog.normalized.items() if self.prog else [])},
                 "source_digest": self.prog.digest if self.prog else None,
                 "source_root": self.prog.root if self.prog else None,
                 "checker_cmd": "./check %s --tier %s" % (self.prop, self.tier),
